@@ -162,6 +162,7 @@ func (q *ShardQueue) foreach() {
 			q.unlock(shared)
 
 			// deal
+			vp(vpqDeal, unsafe.Pointer(q), 0, 0)
 			q.deal(q.swap)
 			negNum--
 			if triggerNum+negNum == 0 {
